@@ -1140,6 +1140,9 @@ func (dc *driverContextInsertion) transition(driver stateTableDriver, entry tabl
 		if int(start)+count > len(dc.insertionAction) { // invalid font
 			return
 		}
+		if len(buffer.outInfo)+len(buffer.Info)-buffer.idx+count > buffer.maxLen { // the buffer may not grow anymore
+			return
+		}
 		glyphs := dc.insertionAction[start:]
 
 		before := flags&miMarkedInsertBefore != 0
@@ -1175,6 +1178,9 @@ func (dc *driverContextInsertion) transition(driver stateTableDriver, entry tabl
 		buffer.maxOps -= count
 		start := currentInsertIndex
 		if int(start)+count > len(dc.insertionAction) { // invalid font
+			return
+		}
+		if len(buffer.outInfo)+len(buffer.Info)-buffer.idx+count > buffer.maxLen { // the buffer may not grow anymore
 			return
 		}
 		glyphs := dc.insertionAction[start:]
